@@ -271,9 +271,15 @@ def _run_hypothesis(prop, facet, shard, tier, seed, examples, stats, findings):
 
 def _run_enumerated(prop, facet, shard, nshards, tier, stats, findings):
     """facet.runner yields cases; check is applied to each; first unknown failure stops."""
+    import signal
+
     for case in facet.runner(shard, nshards, tier, stats):
         try:
-            res = facet.check(case)
+            signal.alarm(facet.case_timeout)
+            try:
+                res = facet.check(case)
+            finally:
+                signal.alarm(0)
         except Exception as exc:
             f = _classify(prop, facet, case, exc, findings, stats)
             if f is None:
